@@ -41,7 +41,7 @@ func c11Args(a int) string {
 	return strings.Join(args, ", ")
 }
 
-// forms: 0 _self, 1 import alias, 2 from import, 3 from import renamed
+// forms: 0 _self, 1 import alias, 2 from import, 3 from import renamed, 4 from import renamed to a registered function's name
 func c11Call(form int, args string) (prelude, call, tpl string) {
 	switch form {
 	case 0:
@@ -50,10 +50,14 @@ func c11Call(form int, args string) (prelude, call, tpl string) {
 		return "{% import 'mac' as i %}", "i.m(" + args + ")", "mac"
 	case 2:
 		return "{% from 'mac' import m %}", "m(" + args + ")", "mac"
-	default:
+	case 3:
 		return "{% from 'mac' import m as g %}", "g(" + args + ")", "mac"
+	default: // renamed to the name of a registered function: the imported macro is what the call refers to
+		return "{% from 'mac' import m as fn9 %}", "fn9(" + args + ")", "mac"
 	}
 }
+
+const c11Forms = 5
 
 const c11Uses = 8
 
@@ -81,6 +85,7 @@ func c11Use(u int, call, r string) (src, out string) {
 func c11Env(tpls map[string]string, log *[]string) *stick.Env {
 	env := stick.New(&stick.MemoryLoader{Templates: tpls})
 	env.Functions["name"] = func(ctx stick.Context, args ...stick.Value) stick.Value { return ctx.Name() }
+	env.Functions["fn9"] = func(ctx stick.Context, args ...stick.Value) stick.Value { return "FN9" } // only ever shadowed by an import alias
 	env.Functions["rec"] = func(ctx stick.Context, args ...stick.Value) stick.Value {
 		var parts []string
 		for _, a := range args {
@@ -137,7 +142,7 @@ func c11Run(c core.Case) core.Result {
 		p, a, use := c.N[0], c.N[1], c.N[2]
 		norm := strings.NewReplacer("n=main", "n=*", "n=mac", "n=*", "N=MAIN", "N=*", "N=MAC", "N=*")
 		var first, firstSrc string
-		for form := 0; form < 4; form++ {
+		for form := 0; form < c11Forms; form++ {
 			prelude, call, _ := c11Call(form, c11Args(a))
 			src, _ := c11Use(use, call, "")
 			tpls := map[string]string{"mac": c11MacroDef("m", p)}
@@ -289,6 +294,48 @@ func c11Run(c core.Case) core.Result {
 			return core.Violation("macro", fmt.Sprintf("%q renders\n    %q, want\n    %q", tpls["main"], out, want))
 		}
 		return core.Okay(true, out)
+	case "hosted":
+		// a template that defines a macro and calls it through _self inside a block, rendered directly, as the
+		// parent of an extending child, through embed and through include: the call finds the macro every time
+		p, a, how, use := c.N[0], c.N[1], c.N[2], c.N[3]
+		r := c11MacroExpect(p, a, "host")
+		src, want := c11Use(use, "_self.m("+c11Args(a)+")", r)
+		tpls := map[string]string{
+			"host": "{% macro w(a) %}<{{ a }}>{% endmacro %}" + c11MacroDef("m", p) + "H[{% block body %}" + src + "{% endblock %}|{% block other %}o{% endblock %}]",
+		}
+		want = "H[" + want + "|o]"
+		switch how {
+		case 0:
+			tpls["main"] = "{% extends 'host' %}"
+		case 1:
+			tpls["main"] = "{% extends 'host' %}{% block other %}O2{% endblock %}"
+			want = strings.Replace(want, "|o]", "|O2]", 1)
+		case 2:
+			tpls["main"] = "A{% embed 'host' %}{% endembed %}Z"
+			want = "A" + want + "Z"
+		case 3:
+			tpls["main"] = "A{% embed 'host' %}{% block other %}O2{% endblock %}{% endembed %}Z"
+			want = "A" + strings.Replace(want, "|o]", "|O2]", 1) + "Z"
+		case 4:
+			tpls["main"] = "A{% include 'host' %}Z"
+			want = "A" + want + "Z"
+		case 5:
+			tpls["main"] = "{% extends 'mid' %}"
+			tpls["mid"] = "{% extends 'host' %}{% block other %}O2{% endblock %}"
+			want = strings.Replace(want, "|o]", "|O2]", 1)
+		}
+		out, err, pan, _ := c11Exec(tpls)
+		desc := fmt.Sprintf("main=%q host=%q", tpls["main"], tpls["host"])
+		if pan != "" {
+			return core.Violation("panic", "panicked: "+pan+"\n    "+desc)
+		}
+		if err != nil {
+			return core.Violation("error", fmt.Sprintf("fails: %v (want %q)\n    %s", err, want, desc))
+		}
+		if out != want {
+			return core.Violation("macro", fmt.Sprintf("renders\n    %q, want\n    %q\n    %s", out, want, desc))
+		}
+		return core.Okay(true, out)
 	case "unknown":
 		srcs := []string{
 			"{% import 'mac' as i %}a{{ i.nosuch(1) }}b",
@@ -312,10 +359,10 @@ func c11Run(c core.Case) core.Result {
 
 func c11Levels(tier string) []core.Level {
 	return []core.Level{
-		{Name: "macro with 0..4 parameters x call with 0..6 arguments x 4 call forms x 8 uses of the result", Gen: func(emit func(core.Case)) {
+		{Name: "macro with 0..4 parameters x call with 0..6 arguments x 5 call forms x 8 uses of the result", Gen: func(emit func(core.Case)) {
 			for p := 0; p <= 4; p++ {
 				for a := 0; a <= 6; a++ {
-					for form := 0; form < 4; form++ {
+					for form := 0; form < c11Forms; form++ {
 						for use := 0; use < c11Uses; use++ {
 							emit(core.Case{Fam: "call", N: []int{p, a, form, use}})
 						}
@@ -323,7 +370,7 @@ func c11Levels(tier string) []core.Level {
 				}
 			}
 		}},
-		{Name: "differential: the four call forms give identical results (modulo the template name) for every arity and use", Gen: func(emit func(core.Case)) {
+		{Name: "differential: the five call forms give identical results (modulo the template name) for every arity and use", Gen: func(emit func(core.Case)) {
 			for p := 0; p <= 4; p++ {
 				for a := 0; a <= 6; a++ {
 					for use := 0; use < c11Uses; use++ {
@@ -377,6 +424,17 @@ func c11Levels(tier string) []core.Level {
 				}
 			}
 		}},
+		{Name: "a template calling its own macro through _self inside a block, rendered as parent (child with / without overrides, two levels), through embed (with / without overrides) and through include: 0..4 parameters x 0..6 arguments x 8 uses", Gen: func(emit func(core.Case)) {
+			for p := 0; p <= 4; p++ {
+				for a := 0; a <= 6; a++ {
+					for how := 0; how < 6; how++ {
+						for use := 0; use < c11Uses; use++ {
+							emit(core.Case{Fam: "hosted", N: []int{p, a, how, use}})
+						}
+					}
+				}
+			}
+		}},
 		{Name: "unknown macro of an imported set is an error (5 forms)", Gen: func(emit func(core.Case)) {
 			for i := 0; i < 5; i++ {
 				emit(core.Case{Fam: "unknown", N: []int{i}})
@@ -389,7 +447,7 @@ func init() {
 	core.Register(&core.Check{
 		ID:       "C11",
 		Category: "exploration",
-		Rule: "macro definitions with 0..4 parameters x calls with 0..6 distinct arguments x call form (_self, import alias, from-import, renamed from-import) x use of the result (print, assign and print twice, concatenate, argument of another macro, argument of a recording function, in a 2-iteration loop, in a capture, as condition and filter input); argument lists built from caller variables named like the macro's own parameters; arguments that are themselves macro calls (with arguments, or zero-argument calls of macros whose bodies call further macros), in every position, evaluated after earlier calls in the same execution; macros calling macros through _self to depth 3 with every inner arity; unknown macros of an imported set must fail. " +
+		Rule: "macro definitions with 0..4 parameters x calls with 0..6 distinct arguments x call form (_self, import alias, from-import, renamed from-import, from-import renamed to the name of a registered function) x use of the result (print, assign and print twice, concatenate, argument of another macro, argument of a recording function, in a 2-iteration loop, in a capture, as condition and filter input); argument lists built from caller variables named like the macro's own parameters; arguments that are themselves macro calls (with arguments, or zero-argument calls of macros whose bodies call further macros), in every position, evaluated after earlier calls in the same execution; macros calling macros through _self to depth 3 with every inner arity; a template calling its own macro through _self while rendered as a parent, through embed and through include; unknown macros of an imported set must fail. " +
 			"Every macro body prints each parameter and Context.Name(). Expected output by construction (positional binding, missing = null, surplus ignored, name = defining template); the distinct-outcome count shows the four call forms agree modulo the template name. distinct = distinct configuration; non-trivial = all",
 		Assumptions: []string{"a macro called through an import does not itself refer to _self (stated divergence)", "macros are defined before use in a non-extending template"},
 		Levels:      c11Levels,
